@@ -2,49 +2,17 @@ package main
 
 import (
 	"fmt"
-	"math/big"
 
 	"com.tuntun.rangers/node/src/vm"
-	"github.com/holiman/uint256"
-	"verif/harness/vmx"
 )
 
-func fee(w uint64) *big.Int { // exact memory fee for w words
-	W := new(big.Int).SetUint64(w)
-	sq := new(big.Int).Mul(W, W)
-	sq.Div(sq, big.NewInt(512))
-	return sq.Add(sq, new(big.Int).Mul(W, big.NewInt(3)))
-}
-
 func main() {
-	vmx.Boot(0)
-	vmx.SetFork(vmx.Fork{true, true, true})
-	two64 := new(big.Int).Lsh(big.NewInt(1), 64)
-	// find w with 900*F(w) just below 2^64
-	lo, hi := uint64(1), uint64(1)<<32-1
-	for lo < hi {
-		mid := (lo + hi + 1) / 2
-		t := new(big.Int).Mul(fee(mid), big.NewInt(900))
-		if t.Cmp(two64) < 0 {
-			lo = mid
-		} else {
-			hi = mid - 1
+	for _, f := range [][3]bool{{false, false, false}, {true, true, true}} {
+		t := vm.VerifVMTable(f[0], f[1], f[2])
+		for i, o := range t {
+			if o.Defined {
+				fmt.Printf("%v %02x %s | %s | %s | g=%d min=%d max=%d h=%v j=%v w=%v rv=%v rt=%v\n", f, i, o.Exec, o.DynamicGas, o.MemorySize, o.ConstantGas, o.MinStack, o.MaxStack, o.Halts, o.Jumps, o.Writes, o.Reverts, o.Returns)
+			}
 		}
 	}
-	w := lo
-	t := new(big.Int).Mul(fee(w), big.NewInt(900))
-	gap := new(big.Int).Sub(two64, t)
-	fmt.Println("w=", w, "bytes=", w*32, "900F=", t, "gap=", gap)
-	cw := new(big.Int).Div(gap, big.NewInt(90)).Uint64() + 1
-	fmt.Println("copy words", cw)
-	length := cw * 32
-	memOff := w*32 - length
-	st := []uint256.Int{*new(uint256.Int).SetUint64(length), *new(uint256.Int), *new(uint256.Int).SetUint64(memOff)}
-	sz, ovf, has := vm.VerifVMMemorySize(true, true, true, 0x37, st)
-	fmt.Println("memsize", sz, ovf, has)
-	ms := vm.VerifVMToWordSize(sz) * 32
-	g, err, _ := vm.VerifVMDynamicGas(nil, true, true, true, 0x37, st, 1<<62, 0, 0, ms)
-	fmt.Println("CALLDATACOPY dynamic gas for", ms, "bytes of new memory:", g, err)
-	exact := new(big.Int).Add(new(big.Int).Mul(fee(w), big.NewInt(900)), new(big.Int).Mul(new(big.Int).SetUint64(cw), big.NewInt(90)))
-	fmt.Println("exact", exact)
 }
